@@ -34,8 +34,8 @@ def variants(props):
             if caught:
                 out.append(('seeded', m.get('property'), patch, caught))
     for p in sorted(glob.glob(os.path.join(HERE, 'equivalents', '*.patch'))):
-        prop = os.path.basename(p).split('-')[0]
-        out.append(('equivalent', prop, p, [prop]))
+        props_ = os.path.basename(p).split('-')[0].split('+')
+        out.append(('equivalent', props_[0], p, props_))
     if props:
         out = [v for v in out if set(v[3]) & set(props) or v[1] in props]
     only = os.environ.get('MUTANT_KIND')
